@@ -55,7 +55,11 @@ V02(e) == IF e.error # "" THEN "ReturnsNormally" ELSE IF ~ExpectedPartition(e) T
 \* ---- C13
 ShortcutAgrees(e) == \A j \in 1..Len(e.dims) : e.dims[j].shortcut = e.dims[j].direct
 DimStable(e) == \A j \in 1..Len(e.dims) : e.dims[j].again = e.dims[j].shortcut
-V13(e) == IF e.error # "" THEN "ok" ELSE IF ~ShortcutAgrees(e) THEN "ShortcutAgrees" ELSE IF ~DimStable(e) THEN "DimStable" ELSE "ok"
+\* what the shortcut evaluates: the cluster's own atoms, each with its own clustering radius and its own row of the cached distance
+\* table, at the clustering threshold (recorded at the call of get_dimensionality inside the shortcut; atoms identified by position)
+ShortcutEvaluatesOwnAtoms(e) == \A j \in 1..Len(e.dims) : e.dims[j].args_ok
+V13(e) == IF e.error # "" THEN "ok" ELSE IF ~ShortcutAgrees(e) THEN "ShortcutAgrees" ELSE IF ~DimStable(e) THEN "DimStable"
+          ELSE IF ~ShortcutEvaluatesOwnAtoms(e) THEN "ShortcutEvaluatesOwnAtomsWithClusteringRadiiAndThreshold" ELSE "ok"
 
 Verdict(e) == CASE Mode = "C01" -> V01(e) [] Mode = "C13" -> V13(e) [] Mode \in {"C02", "C03"} -> V02(e)
 
